@@ -40,6 +40,8 @@ pub enum Mutation {
     BodyTruncate(u16),
     /// shift the stated timestamp by this many seconds, keep the old signature
     Timestamp(i8),
+    /// rewrite the seconds field of the stated timestamp to 60 / 61 (a leap-second spelling), old signature kept
+    TimestampLeapSecond(bool),
     /// edit credential component k (0 access key, 1 date, 2 region, 3 service, 4 terminator)
     Credential(u8, u16),
     ProviderSecret(u16),
@@ -86,6 +88,7 @@ pub fn mutation() -> BoxedStrategy<Mutation> {
         1 => any::<u8>().prop_map(BodyAppend),
         1 => any::<u16>().prop_map(BodyTruncate),
         2 => prop_oneof![Just(1i8), Just(-1), Just(60), Just(-60), -120i8..120].prop_map(Timestamp),
+        1 => any::<bool>().prop_map(TimestampLeapSecond),
         4 => (0u8..5, any::<u16>()).prop_map(|(k, v)| Credential(k, v)),
         2 => any::<u16>().prop_map(ProviderSecret),
         2 => (0u8..3).prop_map(ProviderDerive),
@@ -306,6 +309,21 @@ pub fn apply(m: &Mutation, plan: &Plan, built: &Built) -> Option<Case> {
             // the credential keeps the date of the originally signed instant
             case.req = attach(&built.base, &plan.cfg, &spec, &built.signed.credential, &sig);
         }
+        TimestampLeapSecond(one) => {
+            // only meaningful when the signed instant is hh:mm:59 -- the neighbouring spelling hh:mm:60 must not validate
+            let t = &plan.spec.ts_text;
+            let (tpos, sec_at) = match t.find('T') {
+                Some(p) => (p, if plan.style.extended { p + 7 } else { p + 5 }),
+                Option::None => return Option::None,
+            };
+            let _ = tpos;
+            if t.len() < sec_at + 2 || &t[sec_at..sec_at + 2] != "59" {
+                return Option::None;
+            }
+            let mut spec = plan.spec.clone();
+            spec.ts_text = format!("{}{}{}", &t[..sec_at], if *one { "61" } else { "60" }, &t[sec_at + 2..]);
+            case.req = attach(&built.base, &plan.cfg, &spec, &built.signed.credential, &sig);
+        }
         Credential(k, v) => {
             let mut parts: Vec<String> = built.signed.credential.split('/').map(|s| s.to_string()).collect();
             if parts.len() != 5 {
@@ -438,7 +456,7 @@ pub fn label(m: &Mutation) -> &'static str {
         AppendParam(_) | DuplicateParam(_) | RemoveParam(_) => "param",
         HeaderByte(..) | HeaderCase(..) | HeaderAddValue(_) | HeaderRemove(_) | HeaderSwapValues(_) => "header",
         BodyFlip(_) | BodyAppend(_) | BodyTruncate(_) => "body",
-        Timestamp(_) => "timestamp",
+        Timestamp(_) | TimestampLeapSecond(_) => "timestamp",
         Credential(..) => "credential",
         ProviderSecret(_) | ProviderDerive(_) => "key",
         ServerRegion(_) | ServerService(_) | FlipOption(_) => "server-config",
